@@ -32,20 +32,34 @@ theorem handler_total (E : Env) (hts : ∀ b, E.txSize b ≤ b.length) (cmd : St
   exact parse_total E hts cmd pl (by omega)
 
 example : ∃ E : Env, ∀ b, E.txSize b ≤ b.length :=
-  ⟨⟨fun _ => 0, fun _ => none, none, false, false, none, false⟩, fun _ => Nat.zero_le _⟩
+  ⟨⟨fun _ => 0, fun _ => none, none, false, false, none, false, false⟩, fun _ => Nat.zero_le _⟩
 
 /-- the same with the transaction-size function of C09's wire model (lib/btc TxSize after its
     `fix:`), for which the assumption is proved: no hypothesis left but the size limit. -/
-theorem handler_total_wire (ntx pend : Option Nat) (a b t : Bool) (newTx : Bytes → Option (Nat × Nat)) (cmd : String) (pl : Bytes)
+theorem handler_total_wire (ntx pend : Option Nat) (a b t o : Bool) (newTx : Bytes → Option (Nat × Nat)) (cmd : String) (pl : Bytes)
     (hl : pl.length ≤ Gen.NetFacts.maxMsgSize cmd) :
-    let E : Env := ⟨Wire.txSize, newTx, ntx, a, b, pend, t⟩
+    let E : Env := ⟨Wire.txSize, newTx, ntx, a, b, pend, t, o⟩
     (parse E cmd pl).out.isPanic = false ∧ (parse E cmd pl).locks = [] ∧
       (parse E cmd pl).steps ≤ pl.length + 262141 :=
-  handler_total ⟨Wire.txSize, newTx, ntx, a, b, pend, t⟩ wire_txSize_le cmd pl hl
+  handler_total ⟨Wire.txSize, newTx, ntx, a, b, pend, t, o⟩ wire_txSize_le cmd pl hl
 
 /-- non-vacuity: a well-formed inv of one entry is within the limit and is parsed (not merely rejected) -/
-example : (parse ⟨Wire.txSize, fun _ => none, none, false, false, none, false⟩ "inv" ([1, 2, 0, 0, 0] ++ List.replicate 32 7)).out.isPanic = false ∧
+example : (parse ⟨Wire.txSize, fun _ => none, none, false, false, none, false, false⟩ "inv" ([1, 2, 0, 0, 0] ++ List.replicate 32 7)).out.isPanic = false ∧
     (([1, 2, 0, 0, 0] ++ List.replicate 32 7 : Bytes).length ≤ Gen.NetFacts.maxMsgSize "inv") := by decide +kernel
+
+/-- non-vacuity for the two state-dependent branches the oracle is driven through by the harness: a getdata that
+    meets 1 799 964 postponed bytes is appended when it brings 36 more and refused when it brings 72; a getmpdone
+    from the holder of the getmp ticket is read (empty / 00 = over, anything else = more) -/
+example :
+    (parse ⟨Wire.txSize, fun _ => none, none, false, false, some 1799964, false, false⟩ "getdata" (1 :: List.replicate 36 0)).out.accepted
+      = some ("getdata-appended", [1800000], []) ∧
+    (parse ⟨Wire.txSize, fun _ => none, none, false, false, some 1799964, false, false⟩ "getdata" (2 :: List.replicate 72 0)).out.rejected
+      = some "GetDataTooBigA" := by
+  decide +kernel
+example :
+    (parse ⟨Wire.txSize, fun _ => none, none, false, false, none, false, true⟩ "getmpdone" []).out.accepted = some ("getmpdone", [0], []) := by decide +kernel
+example : (parse ⟨Wire.txSize, fun _ => none, none, false, false, none, false, true⟩ "getmpdone" [0]).out.accepted = some ("getmpdone", [0], []) := by decide +kernel
+example : (parse ⟨Wire.txSize, fun _ => none, none, false, false, none, false, true⟩ "getmpdone" [7, 0]).out.accepted = some ("getmpdone", [1], []) := by decide +kernel
 
 /-- FetchMessage (header, length limit, encrypted flag, checksum) never panics and holds no lock at
     exit, for any wire bytes and any connection state. -/
@@ -254,8 +268,9 @@ theorem fast_loops_agree_pointwise (fixed : Bool) (txSize : Bytes → Nat) (pl :
     Lock of a held mutex, no Unlock of an unheld one, no call - while a mutex is held - of a function of
     these files that locks the same mutex itself (through its receiver, e.g. `c.DoS()` under c.Mutex, or
     a package-level mutex; one level deep: the callee's own trace), and every access to InvDone.Map,
-    PendingInvs, c.InvStore, GetBlockInProgress deletes and peersdb.PeerDB.Put/Del inside the span of
-    its lock. (Per function and path-insensitive; beyond that one level, locks taken inside callees are
+    PendingInvs, c.InvStore, GetBlockInProgress deletes, peersdb.PeerDB.Put/Del and the statistics map
+    `counters` (every mention of the field and every call of a counter helper - a method that touches the
+    map without locking, `Gen.NetFacts.counterHelpers`) inside the span of its lock. (Per function and path-insensitive; beyond that one level, locks taken inside callees are
     not followed.) -/
 theorem lock_discipline_current : NetParse.Locks.complaints Gen.NetFacts.lockTraces = [] := by decide +kernel
 
@@ -288,6 +303,23 @@ theorem shared_accesses_tracked :
     NetParse.Locks.accessVia "OneConnection.ParseAddr" "peersdb.PeerDB.Put" "peersdb" = true ∧
     64 ≤ Gen.NetFacts.lockTraces.length := by decide +kernel
 
+/-- the same for the statistics map `counters` (second audit, /repo fix 6fde6594): its reader GetStats and Tick's
+    reset, the handler the fix repaired, and the paths every message takes (FetchMessage, SendRawMsg, Misbehave) are
+    among the tagged accesses, at least 20 in all; the two counter helpers (methods that touch the map without
+    locking - found by that shape, the names are only stated here) are not traced themselves but checked at every
+    call site; the locking variant is traced and holds the mutex around its access. -/
+theorem counters_tracked :
+    ("OneConnection.GetStats", "c.counters", "c.Mutex") ∈ Gen.NetFacts.sharedAccesses ∧
+    ("OneConnection.Tick", "c.counters", "c.Mutex") ∈ Gen.NetFacts.sharedAccesses ∧
+    ("OneConnection.ProcessBlockTxn", "c.cntInc(…)", "c.Mutex") ∈ Gen.NetFacts.sharedAccesses ∧
+    ("OneConnection.Misbehave", "c.cntInc(…)", "c.Mutex") ∈ Gen.NetFacts.sharedAccesses ∧
+    ("OneConnection.FetchMessage", "c.cntAdd(…)", "c.Mutex") ∈ Gen.NetFacts.sharedAccesses ∧
+    ("OneConnection.SendRawMsg", "c.cntAdd(…)", "c.Mutex") ∈ Gen.NetFacts.sharedAccesses ∧
+    (Gen.NetFacts.sharedAccesses.filter (fun a => a.2.1 == "c.counters" || a.2.1 == "c.cntInc(…)" || a.2.1 == "c.cntAdd(…)")).length ≥ 20 ∧
+    Gen.NetFacts.counterHelpers = ["OneConnection.cntAdd", "OneConnection.cntInc"] ∧
+    Gen.NetFacts.counterHelpers.all (fun h => !Gen.NetFacts.lockTraces.any (·.1 == h)) = true ∧
+    ("OneConnection.cntLockInc", "c.counters", "c.Mutex") ∈ Gen.NetFacts.sharedAccesses := by decide +kernel
+
 /-- the call edges the previous theorem speaks about are really in the regenerated facts: SendRawMsg's
     overflow path calls DoS, which locks the connection's mutex (so SendRawMsg must have released it),
     and the handlers reach SendRawMsg / DoS / Misbehave from Run. -/
@@ -296,7 +328,29 @@ theorem call_locks_tracked :
     ("OneConnection.Run", "OneConnection.SendRawMsg", "c.Mutex") ∈ Gen.NetFacts.callLocks ∧
     ("OneConnection.ProcessBlockTxn", "OneConnection.Misbehave", "c.Mutex") ∈ Gen.NetFacts.callLocks ∧
     ("DoNetwork", "OneConnection.MutexSetBool", "$1.Mutex") ∈ Gen.NetFacts.callLocks ∧
+    ("OneConnection.SendGetMP", "OneConnection.cntLockInc", "c.Mutex") ∈ Gen.NetFacts.callLocks ∧
+    ("OneConnection.ExpireHeadersAndGetData", "OneConnection.cntLockInc", "c.Mutex") ∈ Gen.NetFacts.callLocks ∧
     150 ≤ Gen.NetFacts.callLocks.length := by decide +kernel
+
+/-- THE DEFECT THE SECOND AUDIT FOUND, on the traces of the source as it was: before /repo fix 6fde6594
+    ProcessBlockTxn counted `BlkTxnNoBIP` / `BlkTxnNoCOL` after `c.Mutex.Unlock()` and SendGetMP counted
+    `GetMPHold` with no lock (cntInc writes the map `counters` unlocked by contract), while GetStats ranges over
+    that map under c.Mutex: the scan of those two traces - regenerated verbatim from the parent commit - reports
+    each of the three counts; the repaired shapes pass, and the locking variant called with the mutex held is a
+    self-deadlock the scan reports too. On the real code the harness shows the consequence: a 33-byte `blocktxn`
+    for a block that is not in progress, repeated while the UI reads the statistics, ends the process with
+    "fatal error: concurrent map iteration and map write" (go/cmd/c18/stats.go, directed history 0). -/
+theorem counters_unlocked_counterexample :
+    NetParse.Locks.scanFrom [] NetParse.Locks.oldProcessBlockTxn =
+      ["shared access without c.Mutex", "shared access without c.Mutex"] ∧
+    NetParse.Locks.scanFrom [] NetParse.Locks.oldSendGetMP = ["shared access without c.Mutex"] ∧
+    NetParse.Locks.scanFrom [] NetParse.Locks.shapeCountThenUnlock = [] ∧
+    NetParse.Locks.scanFrom [] NetParse.Locks.shapeCountLocking = [] ∧
+    NetParse.Locks.scanFrom [] NetParse.Locks.shapeCountLockingHeld =
+      ["call of a function that locks c.Mutex while it is held"] ∧
+    (Gen.NetFacts.lockTraces.lookup "OneConnection.ProcessBlockTxn").map (NetParse.Locks.scanFrom []) = some [] ∧
+    (Gen.NetFacts.lockTraces.lookup "OneConnection.SendGetMP").map (NetParse.Locks.scanFrom []) = some [] := by
+  decide +kernel
 
 /-- the scan is not vacuous: it accepts the current shapes of ParseAddr's database-full path and of
     processGetData's InvStore, and rejects `continue` with the peers-database lock held, InvStore
@@ -331,15 +385,50 @@ theorem lock_scan_discriminates :
 theorem conn_maps_never_nil :
     ∀ a ∈ Gen.NetFacts.connMapAssigns, NetParse.State.keeps a.2.2 = true := by decide +kernel
 
-/-- CONFIGURATION HISTORIES. Let any sequence of functions of client/network run on a connection, each of
-    its assignments to the map field executing or not - whatever run-time switch of the configuration
-    (common.NoCounters …), counter or clock its guard reads, i.e. under every history of the operator
-    switching things on and off between Ticks and messages: no function that stores an entry (cntInc / cntAdd /
-    cntLockInc under c.Mutex in FetchMessage, Misbehave, SendRawMsg …; InvStore; GetBlockData / ProcessCmpctBlock)
-    ever meets a nil map, and the map is still there afterwards. -/
+/-- every function that creates a connection object (the constructor NewConnection) gives each map that any function
+    stores entries into an UNCONDITIONAL `make` (top level of its body): a new connection starts with its maps, whatever
+    the configuration says when the peer connects. -/
+theorem conn_maps_constructed :
+    ∀ w ∈ Gen.NetFacts.connMapWrites,
+      NetParse.State.ctorMakes Gen.NetFacts.connCtorMakes Gen.NetFacts.connCtors w.2 = true := by decide +kernel
+
+/-- CONFIGURATION HISTORIES. Start from the state the constructor leaves (`ctorMakes`: a map is there iff every
+    function creating a connection object makes it unconditionally - regenerated from the source) and let any sequence
+    of functions of client/network run on the connection, each of its assignments to the map field executing or
+    not - whatever run-time switch of the configuration (common.NoCounters …), counter or clock its guard reads,
+    i.e. under every history of the operator switching things on and off before the peer connects and between Ticks
+    and messages: no function that stores an entry (cntInc / cntAdd / cntLockInc under c.Mutex in FetchMessage,
+    Misbehave, SendRawMsg …; InvStore; GetBlockData / ProcessCmpctBlock) ever meets a nil map, and a map that has
+    a writer is still there afterwards. Rests on the regenerated facts: `connMapAssigns` (all `make`:
+    conn_maps_never_nil - an assignment to a struct containing the map, `*x = T{…}` or a taken address would show up
+    there as `enclosing` / `addr`), `connMapWrites`, `connCtors` / `connCtorMakes`. -/
 theorem conn_maps_total (field : String) (h : NetParse.State.Hist) :
-    NetParse.State.runHist Gen.NetFacts.connMapAssigns Gen.NetFacts.connMapWrites field h true = some true :=
-  NetParse.State.runHist_keep _ _ field conn_maps_never_nil h
+    let start := NetParse.State.ctorMakes Gen.NetFacts.connCtorMakes Gen.NetFacts.connCtors field
+    (NetParse.State.runHist Gen.NetFacts.connMapAssigns Gen.NetFacts.connMapWrites field h start).isSome = true ∧
+    (NetParse.State.written Gen.NetFacts.connMapWrites field = true →
+      NetParse.State.runHist Gen.NetFacts.connMapAssigns Gen.NetFacts.connMapWrites field h start = some true) := by
+  intro start
+  cases hw : NetParse.State.written Gen.NetFacts.connMapWrites field with
+  | false => exact ⟨NetParse.State.runHist_unwritten _ _ field hw h start, by intro x; cases x⟩
+  | true =>
+    obtain ⟨w, hm, he⟩ := NetParse.State.written_mem _ field hw
+    have hs : start = true := by
+      have := conn_maps_constructed w hm
+      rw [he] at this
+      exact this
+    have := NetParse.State.runHist_keep Gen.NetFacts.connMapAssigns Gen.NetFacts.connMapWrites field conn_maps_never_nil h
+    rw [hs]
+    exact ⟨by rw [this]; rfl, fun _ => this⟩
+
+/-- non-vacuity of the premise and of the start state: `counters` has writers and starts as a map; a constructor that
+    makes the counters only while they are switched on (`if !NoCounters { c.counters = make }` - the fact becomes
+    `false`) starts them nil, and the first counting function panics -/
+example :
+    NetParse.State.written Gen.NetFacts.connMapWrites "counters" = true ∧
+    NetParse.State.ctorMakes Gen.NetFacts.connCtorMakes Gen.NetFacts.connCtors "counters" = true ∧
+    NetParse.State.ctorMakes [("NewConnection", "counters", false)] ["NewConnection"] "counters" = false ∧
+    NetParse.State.runHist Gen.NetFacts.connMapAssigns Gen.NetFacts.connMapWrites "counters"
+      [("OneConnection.cntInc", [])] false = none := by decide +kernel
 
 /-- the facts the two previous theorems speak about are there: the three maps, Tick's re-allocation of the
     counters, the three counter writers, and the model can tell the difference - with Tick storing `nil`
@@ -349,6 +438,9 @@ theorem conn_maps_tracked :
     Gen.NetFacts.connMapFields = ["GetBlockInProgress", "InvDone.Map", "X.Counters", "counters"] ∧
     ("OneConnection.Tick", "counters", "make") ∈ Gen.NetFacts.connMapAssigns ∧
     ("NewConnection", "counters", "make") ∈ Gen.NetFacts.connMapAssigns ∧
+    Gen.NetFacts.connCtors = ["NewConnection"] ∧
+    ("NewConnection", "counters", true) ∈ Gen.NetFacts.connCtorMakes ∧
+    NetParse.State.keeps "enclosing" = false ∧ NetParse.State.keeps "addr" = false ∧
     ("OneConnection.cntInc", "counters") ∈ Gen.NetFacts.connMapWrites ∧
     ("OneConnection.cntAdd", "counters") ∈ Gen.NetFacts.connMapWrites ∧
     ("OneConnection.cntLockInc", "counters") ∈ Gen.NetFacts.connMapWrites ∧
